@@ -108,10 +108,50 @@ def run(prop, seed, budget, ctx):
                     Sub = type(f"Sub{i}", (W,), {})
                     sb = outcome(lambda: serialize(Sub, Sub(w.v)))
                     if sb != s2: fail("subclass-does-not-inherit-the-serializer", desc=desc, value=repr(w), got=show(sb), want=show(s2))
+    # three-level hierarchies: a serializer registered with inherited=False in the middle does not stop the inheritance from above
+    for i in range(40 * budget):
+        A = type(f"HA{i}", (), {"__init__": lambda self, v=1: setattr(self, "v", v)})
+        B = type(f"HB{i}", (A,), {}); C = type(f"HC{i}", (B,), {}); D = type(f"HD{i}", (C,), {})
+        serializer(Conversion(lambda a: {"a": a.v}, source=A, target=Dict[str, int]))
+        mid_inherited = rnd.random() < 0.5
+        serializer(Conversion(lambda b: {"b": b.v}, source=B, target=Dict[str, int], inherited=mid_inherited))
+        evaluations += 1; distinct.add(("hierarchy", i))
+        desc = {"hierarchy": "A <- B <- C <- D", "B_serializer_inherited": mid_inherited}
+        want_c = {"b": 7} if mid_inherited else {"a": 7}
+        for cls in (C, D):
+            got = outcome(lambda: serialize(cls, cls(7)))
+            if got != ("ok", want_c): fail("subclass-does-not-inherit-the-serializer", desc=desc, cls=cls.__name__, got=show(got), want=want_c)
+            got = outcome(lambda: serialize(List[cls], [cls(7)]))
+            if got != ("ok", [want_c]): fail("subclass-does-not-inherit-the-serializer", desc=desc, cls="List[" + cls.__name__ + "]", got=show(got), want=[want_c])
+        if outcome(lambda: serialize(B, B(7))) != ("ok", {"b": 7}): fail("serialization-square", desc=desc, cls="B")
+        if outcome(lambda: serialize(A, A(7))) != ("ok", {"a": 7}): fail("serialization-square", desc=desc, cls="A")
+    # chains R -> S -> T: the outer catching converter turns only its own ValueError into a ValidationError; whatever
+    # `deserialize(S, d)` raises, `deserialize(T, d)` raises too
+    for i in range(40 * budget):
+        S = dataclass(type(f"CS{i}", (), {"__annotations__": {"v": int}}))
+        T = dataclass(type(f"CT{i}", (), {"__annotations__": {"s": S}}))
+        inner_catching = rnd.random() < 0.4
+        def r_to_s(x: int, S=S):
+            if x < 0: raise ValueError("negative")
+            return S(x)
+        def s_to_t(s, T=T):
+            if s.v == 13: raise ValueError("unlucky")
+            return T(s)
+        deserializer(Conversion(catch_value_error(r_to_s) if inner_catching else r_to_s, source=int, target=S))
+        deserializer(Conversion(catch_value_error(s_to_t), source=S, target=T))
+        desc = {"chain": "int -> S -> T", "inner_catching": inner_catching, "outer_catching": True}
+        for d in (5, -1, 13, "x"):
+            evaluations += 1; distinct.add(("chain", i, repr(d)))
+            inner = outcome(lambda: deserialize(S, d))
+            if inner[0] == "ok": want = ("invalid", [{"loc": [], "err": "unlucky"}]) if inner[1].v == 13 else ("ok", T(inner[1]))
+            else: want = inner
+            got = outcome(lambda: deserialize(T, d))
+            if got != want: fail("deserialization-square", desc=desc, datum=repr(d), got=show(got), want=show(want))
     return {"evaluations": evaluations, "distinct_nontrivial": len(distinct),
             "rule": "fresh wrapper classes with a deserializer S -> W and a serializer W -> S over six source types, registered or dynamic, 40% of the "
                     "converters raising ValueError under catch_value_error, 30% of the registered ones with a second deserializer; every datum of a "
-                    "per-source pool (valid and invalid); non-trivial = every case (a conversion is always in effect); distinct by (source, mode, datum)",
+                    "per-source pool (valid and invalid); four-level class hierarchies with a serializer at the root and one (inherited or not) below it; "
+                    "chains int -> S -> T with a catching outer converter and a catching or non-catching inner one; non-trivial = every case (a conversion is always in effect); distinct by (source, mode, datum)",
             "samples": samples, "histograms": dict(hist), "failures": failures}
 
 
